@@ -240,7 +240,9 @@ fn place_json<'tcx>(tcx: TyCtxt<'tcx>, body: &Body<'tcx>, p: &Place<'tcx>) -> J 
             ProjectionElem::Field(f, _) => {
                 // field name when the base is an ADT
                 let mut name = format!("{}", f.as_usize());
+                let mut adt_path = String::new();
                 if let ty::Adt(adt, _) = cur_ty.ty.kind() {
+                    adt_path = tcx.def_path_str(adt.did());
                     let vi = cur_ty.variant_index.unwrap_or(rustc_abi::FIRST_VARIANT);
                     if adt.is_enum() || adt.is_struct() {
                         if let Some(v) = adt.variants().get(vi) {
@@ -253,6 +255,7 @@ fn place_json<'tcx>(tcx: TyCtxt<'tcx>, body: &Body<'tcx>, p: &Place<'tcx>) -> J 
                 J::Obj(vec![
                     ("field".into(), J::Num(f.as_usize() as i128)),
                     ("name".into(), J::Str(name)),
+                    ("adt".into(), J::Str(adt_path)),
                 ])
             }
             ProjectionElem::Index(l) => J::Obj(vec![("index".into(), J::Num(l.as_usize() as i128))]),
